@@ -73,42 +73,106 @@ def err(e):
     return {'ok': False, 'exc': type(e).__name__, 'msg': str(e)[:300]}
 
 
+def one_type(c):
+    reset()
+    try:
+        np.random.seed(c['seed'])
+        g = native_draws.native_random_number_generators[c['key']]
+        a = g.generator(c['ss'], c['n'])
+        r = {'ok': True, 'descr': g.description}
+        r.update(arr_out(a))
+        r['rec'] = {k: REC[k] for k in ('uniform', 'shuffle', 'wichura', 'shuffle_ok')}
+        r['rec'] = json.loads(json.dumps(r['rec']))
+    except Exception as e:  # noqa
+        r = err(e)
+    return r
+
+
+def one_halton(c):
+    reset()
+    try:
+        np.random.seed(c['seed'])
+        a = draws.get_halton_draws(c['ss'], c['n'], symmetric=c['symmetric'], base=c['base'], skip=c['skip'],
+                                   shuffled=c['shuffled'])
+        r = {'ok': True}
+        r.update(arr_out(a))
+        r['shuffle'] = list(REC['shuffle'])
+        r['shuffle_ok'] = REC['shuffle_ok']
+        r['n_uniform'] = len(REC['uniform'])
+    except Exception as e:  # noqa
+        r = err(e)
+    return r
+
+
 def run_types(cases):
     patch()
-    out = []
-    for c in cases:
-        reset()
-        try:
-            np.random.seed(c['seed'])
-            g = native_draws.native_random_number_generators[c['key']]
-            a = g.generator(c['ss'], c['n'])
-            r = {'ok': True, 'descr': g.description}
-            r.update(arr_out(a))
-            r['rec'] = {k: REC[k] for k in ('uniform', 'shuffle', 'wichura', 'shuffle_ok')}
-            r['rec'] = json.loads(json.dumps(r['rec']))
-        except Exception as e:  # noqa
-            r = err(e)
-        out.append(r)
-    return out
+    return [one_type(c) for c in cases]
 
 
 def run_halton(cases):
     patch()
+    return [one_halton(c) for c in cases]
+
+
+def run_history(cases):
+    """each case = {'steps': [...]}: the steps run one after the other in ONE fresh process (fork), so that
+    whatever a call leaves behind (module state, arrays handed out) is seen by the next one"""
+    import os
+    patch()
+    out = []
+    for h in cases:
+        rfd, wfd = os.pipe()
+        pid = os.fork()
+        if pid == 0:
+            code = 0
+            try:
+                os.close(rfd)
+                res = []
+                for st in h['steps']:
+                    res.append(one_type(st) if st['kind'] == 'type' else one_halton(st))
+                # arrays handed out earlier must not have been changed by later calls: nothing to re-read here,
+                # results were serialised call by call
+                with os.fdopen(wfd, 'w') as f:
+                    f.write(json.dumps({'ok': True, 'steps': res}))
+            except BaseException as e:  # noqa
+                code = 1
+                try:
+                    with os.fdopen(wfd, 'w') as f:
+                        f.write(json.dumps(err(e)))
+                except Exception:
+                    pass
+            os._exit(code)
+        os.close(wfd)
+        with os.fdopen(rfd) as f:
+            data = f.read()
+        os.waitpid(pid, 0)
+        try:
+            out.append(json.loads(data))
+        except Exception:
+            out.append({'ok': False, 'exc': 'history', 'msg': data[-300:]})
+    return out
+
+
+def run_table(cases):
+    """Database.generate_draws with a draw_types dict whose insertion order is given explicitly"""
+    import pandas as pd
+    from biogeme.database import Database
     out = []
     for c in cases:
-        reset()
         try:
             np.random.seed(c['seed'])
-            a = draws.get_halton_draws(c['ss'], c['n'], symmetric=c['symmetric'], base=c['base'], skip=c['skip'],
-                                       shuffled=c['shuffled'])
-            r = {'ok': True}
-            r.update(arr_out(a))
-            r['shuffle'] = list(REC['shuffle'])
-            r['shuffle_ok'] = REC['shuffle_ok']
-            r['n_uniform'] = len(REC['uniform'])
+            df = pd.DataFrame({'x': [float(i) for i in range(c['ss'])]})
+            db = Database('c11', df)
+            decl = {}
+            for nm, k in c['decl']:
+                decl[nm] = k
+            t = np.asarray(db.generate_draws(decl, list(c['names']), c['n']), dtype=float)
+            r = {'ok': True, 'shape': list(t.shape)}
+            if t.ndim == 3 and t.shape[2] == len(c['names']):
+                r['columns'] = [t[:, :, i].tolist() for i in range(t.shape[2])]
+            out.append(r)
         except Exception as e:  # noqa
-            r = err(e)
-        out.append(r)
+            out.append(err(e))
     return out
 
 
@@ -173,7 +237,7 @@ def run_database(cases):
 def main():
     p = json.load(sys.stdin)
     try:
-        res = {'types': run_types, 'halton': run_halton, 'mlhs': run_mlhs, 'quantile': run_quantile,
+        res = {'types': run_types, 'halton': run_halton, 'history': run_history, 'table': run_table, 'mlhs': run_mlhs, 'quantile': run_quantile,
                'database': run_database}[p['mode']](p['cases'])
         print('@@' + json.dumps({'ok': True, 'results': res}))
     except Exception as e:  # noqa
